@@ -3,6 +3,7 @@ import SfVerif.Lemmas.Codes
 import SfVerif.Lemmas.Zipper
 import SfVerif.Lemmas.GenFnsState
 import SfVerif.Lemmas.Language2
+import SfVerif.Lemmas.Frame3
 /-! C03 — the writer enforces the document grammar; a rejected call changes nothing. -/
 namespace SfVerif.Props.C03
 open SfVerif SfVerif.Gen
@@ -107,5 +108,29 @@ theorem C03_state_machine_is_the_source_text (l n len : Nat) (st : WState) (stac
    gen_state_write_string_eq st stack, gen_state_write_non_string_scalar_eq st stack,
    gen_state_start_object_eq len st stack, gen_state_start_array_eq len st stack,
    gen_state_finish_object_eq st stack, gen_state_finish_array_eq st stack⟩
+
+/-- **C03 at the level of a whole thread, every history**: whatever protocol operations a thread has
+    performed — reads, logs, interning, typed (de)serialisation, new invocations, accepted and rejected
+    write calls, string writes in one piece or as allocation + copy — the next write call, whichever it
+    is, is answered with the status the document grammar gives at the position the document is in, moves
+    the document as the grammar says, and changes nothing when it is rejected -/
+theorem C03_every_history (w : Nat) (ops : List Op) (op : WOp) :
+    let wr := (Thread.run w {} ops).1.ctx.writer
+    (wr.step op).2.1 = (wr.abs.step op.tok).2 ∧ (wr.step op).1.abs = (wr.abs.step op.tok).1 ∧
+    ((wr.step op).2.1 ≠ WriteResult_Ok → (wr.step op).1 = wr) := by
+  intro wr
+  have hI : WInv wr := Thread.run_winv w ops {} winv_fresh
+  obtain ⟨h1, h2, _⟩ := step_refines wr hI op
+  exact ⟨h1, h2, C03_reject_noop wr op⟩
+
+/-- … and finalisation succeeds exactly when the root value has been closed -/
+theorem C03_every_history_complete (w : Nat) (ops : List Op) :
+    let wr := (Thread.run w {} ops).1.ctx.writer
+    (wr.finalize).1 = WriteResult_Ok ↔ wr.abs = .complete := by
+  intro wr
+  have hI : WInv wr := Thread.run_winv w ops {} winv_fresh
+  obtain ⟨fs, hfs⟩ := framesOf_some hI.stackOk
+  unfold Writer.finalize Writer.abs
+  cases hst : wr.st <;> simp [WState.frame, hfs]
 
 end SfVerif.Props.C03
